@@ -34,13 +34,23 @@ walk of the reader over the real classes says which parts of the value (and whet
 cannot depend on p - everything but what lies behind an aligned structure at a misaligned position with no seek to a layout offset in
 between (known finding F43) - and those must agree for every p; differences confined to the rest are classified under F43.  Every
 case is also sent to the Lean model of the reader (per-structure align flags, absolute positions).
+Inputs whose type is a SUBCLASS of bytes / bytearray (harness/v5_c09.py:run_subclass): user classes (class B(bytes), class BA(bytearray),
+subclasses of those, with attributes / __slots__ / own __eq__) and the library's own bytes subclasses - the value of a parsed member of an
+outer definition on the same cstruct instance (char p[N], expression-sized, char p[EOF], null-terminated, a row of char p[k][N], a
+typedef'd char array, a member of a nested structure or of a union, a single char, a member declared with T itself; outer definitions
+packed / aligned, compiled / interpreted), windows of such values (slices, memoryview slices, re-wrapped), cs.char[N](bytes), memoryviews
+over all of them - i.e. the idiom cs.inner(outer.payload) - for generated structures, top-level unions, scalars / enums / arrays / 2-d
+arrays / typedefs / unnamed cs.<base>[n] types, records with a dynamic tail and T[2], with contents of ASCII digits, text and noise and
+lengths equal to and beyond the encoding (for char types the T.size-long input takes the documented value-construction shortcut, whose
+value is the parsed value): every object under T(x), T.read(x), T.reads(x), cs.read(name, x) must give what plain bytes of the same
+content give.
 """
 from __future__ import annotations
 
 import io
 import itertools
 
-from .. import defs, impl, refimpl, s3_c09, u2_c09, v4_c09
+from .. import defs, impl, refimpl, s3_c09, u2_c09, v4_c09, v5_c09
 from ..common import Result, mkrng
 from ..structprops import Engine, load, real_parse, rand_bytes, has_eof
 
@@ -297,6 +307,11 @@ def run(env) -> Result:
                 "interpreted} x start positions 0,1,2,3,5,8 x stream kinds x call forms, and the bytes from p onward x buffer kinds x call forms: "
                 "every part of the value read at a position that cannot depend on p (all but what lies behind a misplaced aligned structure "
                 "before the next seek, F43) and the consumed count must agree; each case also against the Lean model. "
+                "Input objects that are instances of SUBCLASSES of bytes / bytearray - user classes and the values of parsed char / char[n] / "
+                "char[expr] / char[EOF] / char[] / char[k][n] / typedef'd members of an outer definition (also nested, union, sliced, "
+                "memoryviews over them; cs.inner(outer.payload)) - x generated structures, unions, scalars, enums, arrays, typedefs, "
+                "unnamed array types, dynamic-tail records, T[2] x contents (ASCII digits, text, noise; length = and > the encoding) x "
+                "T(x)/T.read/T.reads/cs.read: the value plain bytes of the same content give. "
                 "distinct = (definition, config, input, offset, kind); non-trivial = offset > 0 or a non-bytes input kind")
     eng = Engine(env, res, "C09")
     rnd = mkrng(env["seed"], "c09")
@@ -332,6 +347,7 @@ def run(env) -> Result:
     run_unions(env, eng, res, mkrng(env["seed"], "c09-unions"))
     run_long(env, eng, res, mkrng(env["seed"], "c09-long"))
     v4_c09.run_mixed(env, eng, res, mkrng(env["seed"], "c09-mixed"))
+    v5_c09.run_subclass(env, eng, res, mkrng(env["seed"], "c09-subclass"))
     return res
 
 
